@@ -181,6 +181,16 @@ Qed.
 Lemma unlines_app a b : unlines (a ++ b) = unlines a ++ unlines b.
 Proof. unfold unlines. apply flat_map_app. Qed.
 
+Lemma pair_eq_dec (a b : N * N) : {a = b} + {a <> b}.
+Proof. decide equality; apply N.eq_dec. Qed.
+
+Lemma flat_map_ext_in' {A B} (f g : A -> list B) l :
+  (forall a, In a l -> f a = g a) -> flat_map f l = flat_map g l.
+Proof.
+  induction l as [|x r IH]; intros H; [reflexivity|]. simpl. rewrite (H x) by now left.
+  rewrite IH; [reflexivity|]. intros a Ha. apply H. now right.
+Qed.
+
 (* ================================================================================================ *)
 (* 2. one edge line                                                                                 *)
 (* ================================================================================================ *)
@@ -400,6 +410,141 @@ Section WmdProofs.
     rewrite fold_assoc_set_fresh.
     2:{ cbn [keys map app]. fold (keys es). rewrite Hk. destruct Hg as [D [Dn _]]. now apply edge_keys_NoDup. }
     reflexivity.
+  Qed.
+
+  (* ============================================================================================== *)
+  (* 6. the re-parsed instance has the same content                                                 *)
+  (* ============================================================================================== *)
+  Lemma reparsed_weights_get i k : wf_wmd i ->
+    assoc_get peqb k (w_weights (reparsed i)) = assoc_get peqb k (w_weights i).
+  Proof.
+    intros (_ & _ & _ & Hg & [D E] & _). cbn [reparsed w_weights]. unfold sorted_weights.
+    destruct (in_dec pair_eq_dec k (edge_keys (w_nodes i))) as [I|I].
+    - now apply wlist_get_in.
+    - rewrite wlist_get_notin by exact I. symmetry. apply (assoc_get_None _ _ peqb peqb_spec).
+      intros C. apply I. destruct k as [a b]. apply E in C. apply edge_keys_In.
+      split; [now apply nbrs_In_key in C|exact C].
+  Qed.
+
+  Lemma wedges_In (j : winst) n m w : NoDup (keys (w_nodes j)) ->
+    (In ((n, m), w) (wedges j) <->
+     In m (nbrs (w_nodes j) n) /\ assoc_get peqb (n, m) (w_weights j) = Some w).
+  Proof.
+    intros D. unfold wedges. rewrite in_flat_map. split.
+    - intros [k [Hk H]]. destruct (assoc_get peqb k (w_weights j)) as [w0|] eqn:G; [|contradiction].
+      destruct H as [H|[]]. injection H as -> ->. split; [|exact G]. now apply all_edges_In in Hk.
+    - intros [H G]. exists (n, m). split; [now apply all_edges_In|]. rewrite G. now left.
+  Qed.
+
+  (* what C09 claims about the instance i' obtained by parsing the file written from i *)
+  Definition same_content (i i' : winst) : Prop :=
+    (* all header fields, the alternative names (same dict, same order) and num_alternatives are those
+       of i; num_voters = num_alternatives *)
+    w_meta i' = reparsed_meta (w_meta i) /\
+    (* the same set of directed edges *)
+    (forall n m, In m (nbrs (w_nodes i') n) <-> In m (nbrs (w_nodes i) n)) /\
+    (* with the same weights: the two weight tables are the same function *)
+    (forall k, assoc_get peqb k (w_weights i') = assoc_get peqb k (w_weights i)) /\
+    (* edges() returns the same set of (source, target, weight) triples *)
+    (forall e, In e (wedges i') <-> In e (wedges i)) /\
+    (* the nodes of i' are exactly the nodes of i that are incident to an edge (isolated nodes are lost) *)
+    (forall n, In n (keys (w_nodes i')) <-> incident (w_nodes i) n) /\
+    (* num_edges is the number of edges, as before *)
+    w_num_edges i' = N.of_nat (List.length (all_edges (w_nodes i'))) /\
+    w_num_edges i' = w_num_edges i /\
+    (* and i' is again a well-formed instance *)
+    wf_wmd i'.
+
+  Lemma reparsed_meta_fields M : wf_fields M -> wf_fields (reparsed_meta M).
+  Proof. destruct M. exact (fun H => H). Qed.
+
+  Lemma reparsed_wf i : wf_wmd i -> wf_wmd (reparsed i).
+  Proof.
+    intros (Hdt & Hf & Hn & Hg & Hw & Hne & Hnz).
+    assert (Hk : keys (sorted_weights i) = edge_keys (w_nodes i)) by now apply sorted_weights_keys.
+    unfold wf_wmd. cbn [reparsed w_meta w_nodes w_weights w_num_edges].
+    split; [|split; [|split; [|split; [|split; [|split]]]]].
+    - destruct (w_meta i). exact Hdt.
+    - now apply reparsed_meta_fields.
+    - destruct (w_meta i). exact Hn.
+    - apply rebuilt_wf.
+    - unfold wf_weights, reparsed. cbn [w_weights w_nodes]. split.
+      + rewrite Hk. destruct Hg as [D [Dn _]]. now apply edge_keys_NoDup.
+      + intros n m. rewrite Hk. split; intros H.
+        * apply edge_keys_In in H as [_ H]. exact (proj2 (rebuilt_nbrs _ _ _) H).
+        * apply (proj1 (rebuilt_nbrs _ _ _)) in H. apply edge_keys_In. split; [now apply nbrs_In_key in H|exact H].
+    - apply num_stored_length.
+    - intros C. apply Hnz. apply length_zero_iff_nil.
+      rewrite (all_edges_length _ Hg), <- (rebuilt_edge_keys _ Hg), <- (all_edges_length _ (rebuilt_wf _)).
+      now rewrite C.
+  Qed.
+
+  Theorem reparsed_same_content i : wf_wmd i -> same_content i (reparsed i).
+  Proof.
+    intros H. pose proof H as (Hdt & Hf & Hn & Hg & Hw & Hne & Hnz).
+    assert (Hg' : wf_nmap (rebuilt (w_nodes i))) by apply rebuilt_wf.
+    unfold same_content. split; [|split; [|split; [|split; [|split; [|split; [|split]]]]]].
+    - reflexivity.
+    - intros n m. apply rebuilt_nbrs.
+    - intros k. now apply reparsed_weights_get.
+    - intros [[n m] w]. rewrite !wedges_In; [|apply Hg|apply Hg'].
+      rewrite reparsed_weights_get by exact H. cbn [reparsed w_nodes]. now rewrite rebuilt_nbrs.
+    - intros n. apply rebuilt_keys.
+    - apply num_stored_length.
+    - cbn [reparsed w_num_edges]. rewrite rebuilt_num_stored by exact Hg. now symmetry.
+    - now apply reparsed_wf.
+  Qed.
+
+  (* ============================================================================================== *)
+  (* 7. writing the re-parsed instance reproduces the file                                          *)
+  (* ============================================================================================== *)
+  Theorem write_reparsed i : wf_wmd i -> wmd_write W show_w (reparsed i) = wmd_write W show_w i.
+  Proof.
+    intros H. pose proof H as (Hdt & Hf & Hn & Hg & Hw & Hne & Hnz).
+    unfold wmd_write. cbn [reparsed w_meta w_nodes w_weights].
+    assert (E1 : write_metadata (reparsed_meta (w_meta i)) = write_metadata (w_meta i))
+      by (destruct (w_meta i); reflexivity).
+    assert (E2 : alt_names (reparsed_meta (w_meta i)) = alt_names (w_meta i))
+      by (destruct (w_meta i); reflexivity).
+    assert (E3 : count_lines W (reparsed i) = count_lines W i).
+    { unfold count_lines. cbn [reparsed w_meta w_num_edges].
+      rewrite rebuilt_num_stored by exact Hg. rewrite <- Hne. destruct (w_meta i); reflexivity. }
+    fold (reparsed i). rewrite E1, E2, E3. do 3 f_equal.
+    rewrite rebuilt_edge_keys by exact Hg. apply flat_map_ext_in'. intros k Hk.
+    unfold edge_text, sorted_weights. now rewrite wlist_get_in.
+  Qed.
+
+  (* ============================================================================================== *)
+  (* 8. the theorems of C09                                                                         *)
+  (* ============================================================================================== *)
+  Theorem roundtrip_readlines i : wf_wmd i ->
+    wmd_parse W read_w false false (meta0 (lit "wmd")) (readlines (wmd_write W show_w i)) = Ok (reparsed i).
+  Proof.
+    intros H. rewrite wmd_write_lines. rewrite readlines_unlines.
+    - now apply (parse_file_lines nl).
+    - apply forallb_no_nlcr. now apply file_lines_no_break.
+  Qed.
+
+  Theorem roundtrip_splitlines i : wf_wmd i ->
+    wmd_parse W read_w false false (meta0 (lit "wmd")) (splitlines (wmd_write W show_w i)) = Ok (reparsed i).
+  Proof.
+    intros H. rewrite wmd_write_lines. rewrite splitlines_unlines by now apply file_lines_no_break.
+    rewrite <- (parse_file_lines [] i eq_refl H). f_equal.
+    rewrite <- (map_id (file_lines i)) at 1. apply map_ext. intros l. now rewrite app_nil_r.
+  Qed.
+
+  Theorem roundtrip i : wf_wmd i ->
+    exists i', wmd_parse W read_w false false (meta0 (lit "wmd")) (readlines (wmd_write W show_w i)) = Ok i'
+               /\ same_content i i'.
+  Proof.
+    intros H. exists (reparsed i). split; [now apply roundtrip_readlines|now apply reparsed_same_content].
+  Qed.
+
+  Theorem idempotent i i' : wf_wmd i ->
+    wmd_parse W read_w false false (meta0 (lit "wmd")) (readlines (wmd_write W show_w i)) = Ok i' ->
+    wmd_write W show_w i' = wmd_write W show_w i.
+  Proof.
+    intros H P. rewrite roundtrip_readlines in P by exact H. injection P as <-. now apply write_reparsed.
   Qed.
 
 End WmdProofs.
